@@ -51,13 +51,34 @@ let parse_obs (f : string list) : M.obs =
 
 let cause = function "eof" -> M.SCEOF | "closing" -> M.SCClosing | _ -> M.SCOther
 
+(* The record's BYTES are parsed by the wire model (coq/wire/Wire.v: parse_msgs, the function the C02/C13
+   theorems are about); the harness's own description of what it built is only a cross-check: a difference
+   between the two is reported as PARSEDIFF (the wire model and the generator disagree about a record). *)
+module W = Model.Wire
+let parse_diffs : string list ref = ref []
+let proj_err = function None -> None | Some e -> Some (e.Msg.we_code, e.Msg.we_msg)
+let proj_m (m : Msg.jmsg) =
+  (Msg.fix_id m.Msg.j_id, m.Msg.j_method, m.Msg.j_params, proj_err m.Msg.j_error, m.Msg.j_result, proj_err m.Msg.j_err)
+let same_inbound (a : Msg.inbound) (b : Msg.inbound) =
+  match a, b with
+  | Msg.InBad, Msg.InBad -> true
+  | Msg.InMsgs (x, ms), Msg.InMsgs (y, ns) ->
+    (x = y || ms = []) && List.length ms = List.length ns && List.for_all2 (fun m n -> proj_m m = proj_m n) ms ns
+  | _, _ -> false
+let wire_parse (raw : string) (described : Msg.inbound) : Msg.inbound =
+  let w = W.parse_msgs (hx raw) in
+  if not (same_inbound w described) then parse_diffs := raw :: !parse_diffs;
+  w
+
 let parse_env (f : string list) : M.label =
   match f with
   | ["start"] -> M.LStart
-  | ["feed"; "msg"; batch; ms; _] -> M.LFeed (M.FMsg (Msg.InMsgs (b01 batch, List.map parse_member (split_on ';' ms))))
-  | ["feed"; "msgeof"; batch; ms; _] -> M.LFeed (M.FMsgEOF (Msg.InMsgs (b01 batch, List.map parse_member (split_on ';' ms))))
-  | ["feed"; "bad"; _] -> M.LFeed (M.FMsg Msg.InBad)
-  | ["feed"; "empty"; _] -> M.LFeed (M.FMsg (Msg.InMsgs (true, [])))
+  | ["feed"; "msg"; batch; ms; raw] ->
+    M.LFeed (M.FMsg (wire_parse raw (Msg.InMsgs (b01 batch, List.map parse_member (split_on ';' ms)))))
+  | ["feed"; "msgeof"; batch; ms; raw] ->
+    M.LFeed (M.FMsgEOF (wire_parse raw (Msg.InMsgs (b01 batch, List.map parse_member (split_on ';' ms)))))
+  | ["feed"; "bad"; raw] -> M.LFeed (M.FMsg (wire_parse raw Msg.InBad))
+  | ["feed"; "empty"; raw] -> M.LFeed (M.FMsg (wire_parse raw (Msg.InMsgs (true, []))))
   | ["feed"; "err"; k] -> M.LFeed (M.FErr (cause k))
   | ["sendfault"; b] -> M.LSendFault (b01 b)
   | ["gate"; p; "res"; raw] -> M.LGate (hx p, M.ORes (hx raw))
@@ -169,6 +190,8 @@ let () =
         flush_cur ();
         let its = List.rev !items in
         List.iter (fun x -> Printf.printf "FAULT %s %s\n" !hdr x) (List.rev !faults);
+        List.iter (fun x -> Printf.printf "PARSEDIFF %s %s\n" !hdr x) (List.rev !parse_diffs);
+        parse_diffs := [];
         (match !cfg with
          | _ when !policy = "race" ->
            (* racing mode has no windows: the log is judged by the property monitors only *)
